@@ -927,16 +927,16 @@ theorem tinv_initLoop (l : List String) : âˆ€ (s : St) (i : Nat), TInv s none â†
     apply tinv_newEndpoint
     exact tinv_moveOut h (fun e => e.id == x) (by intro a b hab; simp [hab])
 
-theorem tinv_init {r d : Int} {l : List String} {s : St} (h : init r d l = some s) : TInv s none := by
+theorem tinv_init {r d : Int} {l : List String} {s : St} (h : initRaw r d l = some s) : TInv s none := by
   cases l with
-  | nil => simp [init] at h
+  | nil => simp [initRaw] at h
   | cons first rest =>
-    simp only [init, Option.some.injEq] at h
+    simp only [initRaw, Option.some.injEq] at h
     subst h
     apply tinv_initLoop
     constructor <;> simp [U]
 
-theorem tinv_step {s : St} (h : TInv s none) (hi : Inv s) (op : Op) : TInv (step s op).1 none := by
+theorem tinv_step {s : St} (h : TInv s none) (hi : Inv s) (op : Op) : TInv (stepRaw s op).1 none := by
   cases op with
   | setAvail e a => exact tinv_muc (tinv_sea h hi.toBase e a)
   | setEndpoints l => exact tinv_opSetEndpoints h l
@@ -945,7 +945,7 @@ theorem tinv_step {s : St} (h : TInv s none) (hi : Inv s) (op : Op) : TInv (step
 
 theorem reach_tinv {s : St} (h : Reach s) : TInv s none := by
   induction h with
-  | init _ _ hi => exact tinv_init hi
-  | step op hr ih => exact tinv_step ih (reach_inv hr) op
+  | initRaw _ _ hi => exact tinv_init hi
+  | stepRaw op hr ih => exact tinv_step ih (reach_inv hr) op
 
 end GcpVerif.ME
